@@ -644,8 +644,21 @@ def send_desc(pa):
     for n, v in pa.choices:
         n = str(n)
         if n.startswith("cmp:") and "len@" in n:
-            d["full"] = v
-            d["cmp"] = n.split(":")[1]
+            # canonical form of the capacity test, however it is spelled: full <=> len() >= max_transactions
+            ent = next((e for e in pa.log if e[0] == "cmp" and e[1] == n), None)
+            op = n.split(":")[1]
+            a_len = ent is not None and "len@" in repr(ent[3]) and "max_transactions" in repr(ent[4])
+            b_len = ent is not None and "len@" in repr(ent[4]) and "max_transactions" in repr(ent[3])
+            if a_len and op in ("Ge", "Eq"):
+                d["full"], d["cmp"] = v, "Ge"
+            elif a_len and op == "Lt":
+                d["full"], d["cmp"] = 1 - v, "Ge"
+            elif b_len and op in ("Le", "Eq"):
+                d["full"], d["cmp"] = v, "Ge"
+            elif b_len and op == "Gt":
+                d["full"], d["cmp"] = 1 - v, "Ge"
+            else:
+                d["full"], d["cmp"] = v, op
         elif n == "variant(client.mechanism)":
             d["mech"] = v
         elif n.startswith("variant(ret:prepare_request@"):
